@@ -21,11 +21,43 @@ def nerrors(r):
     return len([d for d in r.get("diags", []) if d.get("severity") == "Error"]) + len(r.get("parse_errors") or [])
 
 
+def add_typed_shapes(p):
+    """Lets whose inferred type is less common: functions of a tuple, of no argument, of two arguments, nested
+    options and lists -- the annotation printed for them must denote the same type."""
+    import gen_prog
+    g = gen_prog.Gen(0)
+    g.nid = 400000
+    n = g.node
+    V = lambda x: n("var", n=x)
+    I = lambda v: n("int", v=v)
+    p["funs"] += [
+        {"n": "zf1", "ps": ["t"], "pt": ["(String, Int)"], "rt": "String", "line": 0, "b": [n("str", v="one")]},
+        {"n": "zf0", "ps": [], "pt": [], "rt": "Int", "line": 0, "b": [I(3)]},
+        {"n": "zf2", "ps": ["a", "b"], "pt": ["Int", "String"], "rt": "Int", "line": 0, "b": [V("a")]},
+    ]
+    p["main"] += [
+        n("let", n="zr1", e=V("zf1")), n("show", e=n("call", f=V("zr1"), args=[n("tuple", xs=[n("str", v="a"), I(1)])])),
+        n("let", n="zr0", e=V("zf0")), n("show", e=n("call", f=V("zr0"), args=[])),
+        n("let", n="zr2", e=V("zf2")), n("show", e=n("call", f=V("zr2"), args=[I(4), n("str", v="b")])),
+        n("let", n="zo", e=n("ctor", n="Some", args=[n("list", xs=[I(1)])])), n("show", e=V("zo")),
+        n("let", n="zt", e=n("tuple", xs=[I(1), n("list", xs=[n("str", v="s")])])), n("show", e=V("zt")),
+        n("let", n="zl", e=n("list", xs=[n("tuple", xs=[I(1), n("str", v="s")])])), n("show", e=V("zl")),
+    ]
+
+
 def run(tier, seed):
     ck = Check("C21", "model_checking", tier, seed)
     rnd = random.Random(seed * 73 + 21)
-    tres, origs = rf.originals(seed + 211, 120 if tier == "quick" else 1200, size=5, err_rate=0.0, features={"ext": True})
+    import gen_prog
+    import refrun
+    progs, srcs = refrun.gen_programs(seed + 211, 120 if tier == "quick" else 1200, 5, err_rate=0.0, features={"ext": True})
+    for p in progs:
+        if p["id"] % 4 == 0:
+            add_typed_shapes(p)
+            srcs[p["id"]] = gen_prog.render(p)
+    tres, exp = refrun.ref_expect(progs)
     ck.add_tlc(tres)
+    origs = [(p, srcs[p["id"]], exp[p["id"]]) for p in progs if exp[p["id"]]["outcome"] == "ok"]
     base_chk = batch("frontend", [{"id": i, "src": s, "format": False} for i, (_, s, _) in enumerate(origs)], timeout_per=3.0)
     jobs, meta = [], []
     for (p, s, e), bc in zip(origs, base_chk):
@@ -36,7 +68,8 @@ def run(tier, seed):
             meta.append((p, s, e, n["start"], n["end"], "dbg", nerrors(bc)))
         lets = [n for n in rf.nodes(p, lambda n: n["k"] == "let" and "start" in n)]
         rnd.shuffle(lets)
-        for n in lets[:3 if tier == "quick" else 6]:
+        lets.sort(key=lambda n: 0 if n["n"].startswith("z") else 1)
+        for n in lets[:7 if tier == "quick" else 10]:
             a = n["start"] + 4
             jobs.append((["reftest-add-type-annotation", "FILE", str(a), str(a + len(n["n"]))], s))
             meta.append((p, s, e, a, a + len(n["n"]), "annotate", nerrors(bc)))
